@@ -7,7 +7,7 @@
    third-party decoder returned for it), so the comparison covers openGemini's own framing and the raw layout fed to
    the compressor. *)
 From Coq Require Import ZArith List Bool.
-From OG Require Import C07.Model C07.ModelRows C07.ModelFile.
+From OG Require Import C07.Gen_Consts C07.Model C07.ModelRows C07.ModelFile C07.ModelPreAgg.
 Import ListNotations.
 Open Scope Z_scope.
 
@@ -128,3 +128,60 @@ Definition check_trailer (vs : list Z) (real : list Z) : Z :=
   (if (length vs =? length trailer_pattern)%nat && words_ok vs then 0 else 1) +
   (if list_eqb (e_fields trailer_pattern vs) (firstn (length (e_fields trailer_pattern vs)) real) then 0 else 2) +
   (match d_fields trailer_pattern real with Some (vs', _) => if list_eqb vs' vs then 0 else 4 | None => 4 end).
+
+(* ---- stored statistics blocks. One case = one statistics value marshalled by the real writer under each
+   chunk-meta-compress-mode; per mode: the real bytes and what the real reader returned for them. Flags per mode:
+     1  no applicable layout (one-row, fixed, variable-length / padded with any scale indices and flag byte) reproduces
+        the real bytes: the writer used a layout the length-dispatching reader cannot take for what it is
+     2  (boolean/string/time) the single layout differs from the real bytes
+     4  the model reader, run on the REAL bytes, does not return what the real reader returned
+     8  a field is out of range
+    32  informational: the bytes differ from the model of today's writer (its choice among applicable layouts)
+   floats: flags under the repaired zero test + 64 * flags under today's zero test. The per-mode words are packed
+   base 4096 in mode order. *)
+Definition stat_eqb (a b : stat) : bool :=
+  (s_min a =? s_min b) && (s_max a =? s_max b) && (s_minT a =? s_minT b) && (s_maxT a =? s_maxT b) &&
+  (s_sum a =? s_sum b) && (s_cnt a =? s_cnt b).
+(* candidate layouts: one-row, fixed, and the variable-length / padded layouts with the flag byte and the scale indices
+   read from the real bytes (a wrong guess can only raise flag 1, never hide a difference) *)
+Definition head_k (bs : list Z) : Z := match bs with k :: _ => k | [] => 0 end.
+Definition ks_after_values (r : list Z) : list (Z * Z) :=      (* r = the bytes from the count on *)
+  match get_uvarint r with
+  | Some (_, r1) => match d_scaled r1 with Some (_, r2) => [(head_k r1, head_k r2)] | None => [] end
+  | None => []
+  end.
+Definition vl_cands (f : bool) (r : list Z) : list layout :=
+  flat_map (fun k => [LVlc f (fst k) (snd k); LPad f (fst k) (snd k)]) (ks_after_values r).
+Definition int_cands (real : list Z) : list layout :=
+  LOne :: LFixed :: match d_pair d_varint (d_pair d_varint d_varint) real with Some (_, r) => vl_cands true r | None => [] end.
+Definition fl_cands (real : list Z) : list layout :=
+  LOne :: LFixed :: match real with
+                    | [] => []
+                    | flag :: r => if flag =? 0 then vl_cands false r else vl_cands true (skipn 24 r)
+                    end.
+Definition dec_flag (d : option (stat * list Z)) (got : stat) : Z :=
+  match d with Some (s', _) => if stat_eqb s' got then 0 else 4 | None => 4 end.
+Definition check_pa_int (self : bool) (s : stat) (real : list Z) (got : stat) : Z :=
+  (if existsb (fun l => pai_applicable l s && list_eqb (pai_enc_with l s) real) (int_cands real) then 0 else 1) +
+  dec_flag (pai_dec real) got + (if stat_ok s then 0 else 8) +
+  (if list_eqb (int_marshal self s) real then 0 else 32).
+Definition check_pa_float (self : bool) (s : stat) (real : list Z) (got : stat) : Z :=
+  let f (zero : stat -> bool) (marshal : bool -> stat -> list Z) :=
+    (if existsb (fun l => fl_applicable_g zero l s && list_eqb (fl_enc_with l s) real) (fl_cands real)
+     then 0 else 1) +
+    dec_flag (fl_dec real) got + (if stat_ok s then 0 else 8) +
+    (if list_eqb (marshal self s) real then 0 else 32) in
+  f fl_zero_repaired fl_marshal + 64 * f fl_zero_current fl_marshal_current.
+Definition check_pa_bool (self : bool) (s : stat) (real : list Z) (got : stat) : Z :=
+  (if bool_stat_ok s then 0 else 8) + (if list_eqb (bool_marshal s) real then 0 else 2) + dec_flag (bool_pa_dec real) got.
+Definition check_pa_string (self : bool) (s : stat) (real : list Z) (got : stat) : Z :=
+  (if word_ok (s_cnt s) && stat_eqb s (cnt_stat (s_cnt s)) then 0 else 8) + (if list_eqb (str_marshal s) real then 0 else 2) +
+  dec_flag (str_pa_dec real) got.
+Definition check_pa_time (self : bool) (s : stat) (real : list Z) (got : stat) : Z :=
+  (if (0 <=? s_cnt s) && (s_cnt s <? M32) && stat_eqb s (cnt_stat (s_cnt s)) then 0 else 8) +
+  (if list_eqb (time_marshal s) real then 0 else 2) + dec_flag (time_pa_dec real) got.
+Fixpoint pa_modes (f : bool -> stat -> list Z -> stat -> Z) (s : stat) (l : list (Z * (list Z * stat))) : Z :=
+  match l with
+  | [] => 0
+  | (mode, (real, got)) :: r => f (mode =? g_cm_mode_self) s real got + 4096 * pa_modes f s r
+  end.
